@@ -1692,6 +1692,8 @@ class ThroughputCalculator:
             )
         current = self.task_stats[task]
         count = current.total_count
+        # ``current_samples`` already contains the samples carried over from the previous call
+        current.unprocessed = []
         last_sample = None
         for sample in current_samples:
             last_sample = sample
